@@ -126,6 +126,40 @@ func bigSubs(r *prng.Rand, total int) []uSub {
 	return []uSub{s}
 }
 
+// countSubs builds lists whose *element counts* are large while every length field stays
+// below 2^16: shape 1 = n policy parts in one instruction, 2 = n instructions in one
+// sublist, 3 = n sublists. Contents are 0..2 octets so that several thousand elements fit.
+func countSubs(r *prng.Rand, shape, n int) []uSub {
+	part := func() uPart { return uPart{typ: byte(1 + r.Intn(4)), val: r.Bytes(r.Intn(3))} }
+	switch shape {
+	case 1:
+		in := uInstr{upsc: uint16(r.Uint32())}
+		for i := 0; i < n; i++ {
+			in.parts = append(in.parts, part())
+		}
+		return []uSub{{mcc: r.Range(99, 999), mnc: r.Range(9, 99), instrs: []uInstr{in}}}
+	case 2:
+		s := uSub{mcc: r.Range(99, 999), mnc: r.Range(9, 999)}
+		for i := 0; i < n; i++ {
+			in := uInstr{upsc: uint16(r.Uint32())}
+			if i%7 == 0 {
+				in.parts = append(in.parts, part())
+			}
+			s.instrs = append(s.instrs, in)
+		}
+		return []uSub{s}
+	}
+	var out []uSub
+	for i := 0; i < n; i++ {
+		s := uSub{mcc: r.Range(99, 999), mnc: r.Range(9, 999)}
+		if i%9 == 0 {
+			s.instrs = append(s.instrs, uInstr{upsc: uint16(r.Uint32()), parts: []uPart{part()}})
+		}
+		out = append(out, s)
+	}
+	return out
+}
+
 // libSubLists builds the same structure through the library's API.
 func libSubLists(subs []uSub) (uePolicyContainer.UEPolicySectionManagementListContent, error) {
 	return libSubListsT(subs, false)
@@ -219,6 +253,10 @@ func c18Command(c *core.Ctx, k *core.Case) {
 	if len(k.I) > 3 && k.I[3] >= 64 {
 		model = bigSubs(r, int(k.I[3])) // list contents of exactly I[3] octets
 		c.Cover("list_content_octets", fmt.Sprint(k.I[3]))
+	}
+	if len(k.I) > 5 && k.I[4] >= 1 {
+		model = countSubs(r, int(k.I[4]), int(k.I[5])) // element counts nobody tries by hand
+		c.Cover("element_counts", fmt.Sprintf("shape%d:%d", k.I[4], k.I[5]))
 	}
 	pti := r.Byte()
 	c.Eval(1)
@@ -751,6 +789,20 @@ func init() {
 			}
 			for _, L := range []int64{64, 255, 256, 257, 32767, 32768, 32769} {
 				c.Do(&core.Case{Oracle: "command", Target: "uePolicyContainer.UePolDeliverySer", I: []int64{int64(c.R.Uint64() >> 1), 1, L & 1, L}})
+			}
+		}})
+		us = append(us, core.Unit{Name: "command-counts", Weight: 60, Run: func(c *core.Ctx) {
+			// many elements rather than many octets: walks across 2^8, 2^10, 2^12 and up to what
+			// the 16-bit length fields admit (a part takes >= 3 octets, an instruction >= 4, a sublist >= 5)
+			tops := []int64{0, 12000, 9000, 9000}
+			for shape := int64(1); shape <= 3; shape++ {
+				ns := []int64{255, 256, 257, 1023, 1024, 1025, 4095, 4096, 4097, tops[shape]}
+				ns = append(ns, int64(c.R.Range(258, 1022)), int64(c.R.Range(1026, 4094)), int64(c.R.Range(4098, int(tops[shape]))))
+				for _, n := range ns {
+					k := &core.Case{Oracle: "command", Target: "uePolicyContainer.UePolDeliverySer", I: []int64{int64(c.R.Uint64() >> 1), 1, n & 1, 0, shape, n}}
+					c.Do(k)
+					c.NonTrivial(k.Hash())
+				}
 			}
 		}})
 		top := 2
